@@ -65,12 +65,19 @@ func (sess *UserSession) Copy(numSet imap.NumSet, destName string) (*imap.CopyDa
 		}
 	}
 
-	var sourceUIDs, destUIDs imap.UIDSet
+	// Don't lock the destination mailbox while the source mailbox is locked:
+	// two sessions copying in opposite directions would deadlock
+	var msgs []messageSnapshot
 	sess.mailbox.forEach(numSet, func(seqNum uint32, msg *message) {
-		appendData := dest.copyMsg(msg)
-		sourceUIDs.AddNum(msg.uid)
-		destUIDs.AddNum(appendData.UID)
+		msgs = append(msgs, msg.snapshot())
 	})
+
+	var sourceUIDs, destUIDs imap.UIDSet
+	for _, snapshot := range msgs {
+		appendData := dest.copySnapshot(snapshot)
+		sourceUIDs.AddNum(snapshot.msg.uid)
+		destUIDs.AddNum(appendData.UID)
+	}
 
 	return &imap.CopyData{
 		UIDValidity: dest.uidValidity,
@@ -94,17 +101,24 @@ func (sess *UserSession) Move(w *imapserver.MoveWriter, numSet imap.NumSet, dest
 		}
 	}
 
-	sess.mailbox.mutex.Lock()
-	defer sess.mailbox.mutex.Unlock()
+	// Don't lock the destination mailbox while the source mailbox is locked:
+	// two sessions moving in opposite directions would deadlock
+	var msgs []messageSnapshot
+	sess.mailbox.forEach(numSet, func(seqNum uint32, msg *message) {
+		msgs = append(msgs, msg.snapshot())
+	})
 
 	var sourceUIDs, destUIDs imap.UIDSet
 	expunged := make(map[*message]struct{})
-	sess.mailbox.forEachLocked(numSet, func(seqNum uint32, msg *message) {
-		appendData := dest.copyMsg(msg)
-		sourceUIDs.AddNum(msg.uid)
+	for _, snapshot := range msgs {
+		appendData := dest.copySnapshot(snapshot)
+		sourceUIDs.AddNum(snapshot.msg.uid)
 		destUIDs.AddNum(appendData.UID)
-		expunged[msg] = struct{}{}
-	})
+		expunged[snapshot.msg] = struct{}{}
+	}
+
+	sess.mailbox.mutex.Lock()
+	defer sess.mailbox.mutex.Unlock()
 	seqNums := sess.mailbox.expungeLocked(expunged)
 
 	err = w.WriteCopyData(&imap.CopyData{
